@@ -106,8 +106,14 @@ def export_case(cls, variant, events, errors, freeze=False):
       events.append(ev)
   d2 = qutils.model_save_quantized_weights(m)
   second = all(np.array_equal(a, b) for a, b in zip(w_after, m.get_weights())) and same_dict(d1, d2)
+  allow = ["QDense", "QConv1D", "QConv2D", "QDepthwiseConv2D", "QSeparableConv1D", "QSeparableConv2D", "QSimpleRNN", "QLSTM", "QGRU"]
+  sp = float(qutils.get_model_sparsity(m))
+  ws = [w.ravel() for lay in m.layers if lay.__class__.__name__ in allow and hasattr(lay, "quantizers") for w in lay.get_weights()]
+  den = int(sum(w.size for w in ws))
+  zeros = int(sum(int(np.sum(w == 0)) for w in ws))
   events.append({"kind": "model", "cls": cls, "variant": variant, "indep": int(variant in INDEP and not freeze),
-                 "frozen": int(freeze), "pred": int(np.array_equal(y0, y1)), "second": int(second)})
+                 "frozen": int(freeze), "pred": int(np.array_equal(y0, y1)), "second": int(second),
+                 "spden": den, "zeros": zeros, "spz": int(round(sp * den))})
 
 
 def bnfuse_case(rnd, events):
@@ -174,7 +180,7 @@ def main():
   for ev in events:
     for k, v in (("w1", [[0, 0]]), ("qw", [[0, 0]]), ("hw", [[0, 0]]), ("sg", [[1, 0]]), ("sc", [[1, 0]]), ("qkind", "other"),
                  ("bits", 0), ("kn", 1), ("sgbad", 0), ("int", 0), ("qs", [[1, 0]]), ("indep", 0), ("frozen", 0), ("pred", 1), ("second", 1), ("gam", [0]), ("J", [0]),
-                 ("lossy", 0), ("b", [0]), ("mean", [0]), ("beta", [0]), ("inv", [0]), ("fb", [0])):
+                 ("lossy", 0), ("spden", 0), ("zeros", 0), ("spz", 0), ("b", [0]), ("mean", [0]), ("beta", [0]), ("inv", [0]), ("fb", [0])):
       ev.setdefault(k, v)
   write_ndjson("%s.%d.ndjson" % (prefix, shard), events)
   json.dump(errors, open("%s.%d.err.json" % (prefix, shard), "w"))
